@@ -62,7 +62,7 @@ Section C08Text.
 
   Lemma nav1f_vrel root x : forall l l' v, vrel (nav1f root x (l, v)) (nav1f root x (l', v)).
   Proof.
-    induction x as [y|i|i o lit|i|d|y IH|i g0 a o b g1 lit|neg g0 gn i g1|g0' d']; intros l l' v; cbn [FiltChainAddr.nav1f]; [apply nav1r_vrel|apply navp_vrel|apply navp_vrel|apply navp_vrel|apply navp_vrel| |apply navp_vrel|destruct neg; apply navp_vrel|apply navp_vrel].
+    induction x as [y|i|i o lit|i|d|y IH|i g0 a o b g1 lit|neg g0 gn i g1|g0' d'|t']; intros l l' v; cbn [FiltChainAddr.nav1f]; [apply nav1r_vrel|apply navp_vrel|apply navp_vrel|apply navp_vrel|apply navp_vrel| |apply navp_vrel|destruct neg; apply navp_vrel|apply navp_vrel|apply navp_vrel].
     cbn [fst snd]. pose proof (containers_same_val v (Some l) (Some l')) as H.
     induction H as [|cu cu' a b Hc _ IHc]; [constructor|]. cbn [flat_map]. apply vrel_app; [|exact IHc].
     unfold same_val in Hc. rewrite Hc. apply IH.
